@@ -50,6 +50,10 @@ def run(ck):
     R5 = ck.rule('R18.5', "nothing after stop: Repeat's only senders are _event and the main "
                  "task, which AddonMainTask cancels and awaits; the queue is created in start()",
                  'M0', 3)
+    R7 = ck.rule('R18.7', "chains of Repeat blocks: wherever the received data is spread next to an "
+                 "explicit keyword (send(self, **data, repeat=N)), that key has been removed from "
+                 "the data on every path (an incoming `repeat` item of an upstream Repeat must not "
+                 "collide); queued data is collision-free too", 'M0', 3)
     R6 = ck.rule('R18.6', "continuation test: after sending number k the loop continues iff "
                  "count is None or k < count (exactly `count` repetitions)", 'ordering domain', 2)
 
@@ -253,6 +257,9 @@ def run(ck):
           "first step can run" if ok else "Repeat.start does not create its queue", st, st.node)
     superchain(ck, R5, 'start', classes={RP})
 
+    # ------------------------------------------------------------------ R18.7
+    _r18_7(ck, R7, rp, ev, mt)
+
     # ------------------------------------------------------------------ R18.6
     g0 = ck.cfg(mt.fid, 'M0')
     cont = nodes_where(g0, lambda n: isinstance(n.ast, ast.Assign) and norm(n.ast.targets[0]) == 'repeating'
@@ -289,6 +296,146 @@ def run(ck):
           "the continuation is decided after the send and consulted at the top of the next "
           "iteration" if after and used else
           "the continuation test does not follow the send / is not consulted", mt, cont[0].ast)
+
+
+def _key_removed(g, var, key):
+    """Nodes after which mapping `var` certainly lacks `key`: `var.pop('key', default)` (two
+    arguments: cannot raise), or `del var['key']` under the guard `'key' in var`."""
+    res = []
+    for n in nodes_where(g, lambda n: True, kinds=('stmt',)):
+        for c in node_calls(n, 'pop'):
+            if recv(c) == var and len(c.args) == 2 and is_const(c.args[0], key):
+                res.append(n)
+        a = n.ast
+        if isinstance(a, ast.Delete) and any(norm(t) == f"{var}[{key!r}]" for t in a.targets) \
+                and g.has_guard(n, f"{key!r} in {var}", True):
+            res.append(n)
+    # the outcome of a membership test that says "absent" is as good as a removal
+    from sa.cfg import decompose, canon_fact
+    want = canon_fact(ast.parse(f"{key!r} in {var}", mode='eval').body, False)
+    for n in g.nodes:
+        if n.kind == 'branch' and any(canon_fact(e, p) == want for e, p in decompose(n.test.ast, n.polarity)):
+            res.append(n)
+    return res
+
+
+def _key_may_be_added(n, var, key):
+    """Node n may (re-)insert `key` into mapping `var` (or re-bind var)."""
+    a = n.ast
+    if a is None or n.kind not in ('stmt', 'for', 'with'):
+        return False
+    for x in ast.walk(a):
+        if isinstance(x, (ast.Assign, ast.AugAssign, ast.AnnAssign)):
+            tgts = x.targets if isinstance(x, ast.Assign) else [x.target]
+            for t in tgts:
+                for e in ast.walk(t):
+                    if isinstance(e, ast.Name) and e.id == var and not isinstance(t, ast.Subscript):
+                        return True         # re-binding
+                    if isinstance(e, ast.Subscript) and norm(e.value) == var and \
+                            not (isinstance(e.slice, ast.Constant) and e.slice.value != key):
+                        return True
+        if isinstance(x, ast.Call) and recv(x) == var and call_name(x) in ('update', 'setdefault', '__setitem__'):
+            if call_name(x) == 'setdefault' and x.args and isinstance(x.args[0], ast.Constant) \
+                    and x.args[0].value != key:
+                continue
+            return True
+    return False
+
+
+def _r18_7(ck, R7, rp, ev, mt):
+    """A mapping spread next to an explicit keyword raises TypeError when the mapping holds that
+    key.  Event data is application/upstream controlled (another Repeat adds `repeat`), hence the
+    key must be provably absent at each such call."""
+    g = ck.cfg(ev.fid, 'M0')
+    dpar = ev.node.args.args[2].arg
+
+    def spread_sites(cfg):
+        out = []
+        for n in nodes_where(cfg, lambda n: True):
+            for c in node_calls(n):
+                sp = [norm(k.value) for k in c.keywords if k.arg is None]
+                ex = [k.arg for k in c.keywords if k.arg is not None]
+                if sp and ex:
+                    out.append((n, c, sp, ex))
+        return out
+
+    def free_at(cfg, node, var, key):
+        """key certainly absent from var at node: every entry->node path passes a removal and no
+        later node on the way may add the key again."""
+        rem = _key_removed(cfg, var, key)
+        if not rem:
+            return False, None
+        p = cfg.path_avoiding(cfg.entry, [node], avoid=rem)
+        if p is not None:
+            return False, p
+        adders = [n for n in cfg.nodes if _key_may_be_added(n, var, key) and n not in rem]
+        for r in rem:
+            for a in adders:
+                if a.id in cfg.reachable_from(r) and node.id in cfg.reachable_from(a) and a is not node:
+                    # an adder between a removal and the use: only harmless if another removal follows
+                    q = cfg.path_avoiding(a, [node], avoid=rem)
+                    if q is not None:
+                        return False, q
+        return True, None
+
+    n_inst = 0
+    for n, c, sp, ex in spread_sites(g):
+        for var in sp:
+            for key in ex:
+                n_inst += 1
+                ok, wit = (False, None)
+                if var == dpar:
+                    ok, wit = free_at(g, n, var, key)
+                ck.ob(R7, f"{ev.fid} :: {norm(c.func)}(**{var}, {key}=)", ok,
+                      f"`{key}` is removed from `{var}` on every path before it is spread next to "
+                      f"the explicit keyword `{key}=`" if ok else
+                      f"`{var}` may still contain the key `{key}` (e.g. the event comes from another "
+                      f"Repeat block): `{norm1(c)}` then raises TypeError (multiple values for "
+                      f"keyword argument) and the simulation is aborted", ev, n.ast,
+                      witness=path_witness(g, wit))
+    # queued data: every put_nowait into the block's queue passes collision-free data
+    gm = ck.cfg(mt.fid, 'M0')
+    msites = spread_sites(gm)
+    keys = sorted({k for _, _, _, ex in msites for k in ex})
+    puts = []
+    for f in rp.methods.values():
+        gf = ck.cfg(f.fid, 'M0')
+        for n in nodes_where(gf, lambda n: True):
+            for c in node_calls(n):
+                if call_name(c) in ('put_nowait', 'put') and recv(c) == 'self._queue':
+                    puts.append((f, gf, n, c))
+    okq = bool(puts)
+    witq = None
+    for f, gf, n, c in puts:
+        arg = norm(c.args[0]) if c.args else None
+        for key in keys:
+            if f.fid != ev.fid or arg != dpar:
+                okq = False
+                continue
+            ok1, w1 = free_at(gf, n, arg, key)
+            if not ok1:
+                okq, witq = False, (gf, w1)
+    ck.ob(R7, f"{RP} :: queued data free of {keys}", okq,
+          f"all {len(puts)} enqueue site(s) put data from which {keys} was removed" if okq else
+          f"data may be queued with one of the keys {keys} still present; the main task spreads it "
+          f"next to the same explicit keyword", ev, puts[0][2].ast if puts else ev.node,
+          witness=path_witness(witq[0], witq[1]) if witq and witq[1] else None)
+    rd = ck.rdefs(mt.fid, 'M1')
+    g1 = ck.cfg(mt.fid, 'M1')
+    for n, c, sp, ex in msites:
+        for var in sp:
+            n1 = g1.node_of(c)
+            defs = rd.defs_at(n1[0], var) if n1 else []
+            okd = bool(defs) and all(
+                isinstance(d.ast, ast.Assign) and any(
+                    isinstance(a, ast.Await) and 'self._queue.get()' in norm(a.value)
+                    for a in walk_shallow(d.ast)) for d in defs)
+            n_inst += 1
+            ck.ob(R7, f"{mt.fid} :: {norm(c.func)}(**{var}, {','.join(ex)}=)", okd and okq,
+                  f"`{var}` always comes from the block's queue, whose items are free of {ex}"
+                  if okd and okq else
+                  f"`{var}` spread next to {ex} is not provably free of that key", mt, n.ast)
+    ck.need(R7, n_inst >= 2, f"expected the two spread-and-keyword send sites of Repeat, found {n_inst}")
 
 
 def _eval_cont(e, env):
